@@ -76,6 +76,8 @@ def gen_case(rng):
     mg, xg = rng.choice([(1, 3), (2, 4), (2, 5)])
     spec = rulesets.gen_spec(rng, with_m=rng.random() < 0.4, n_base=rng.randint(1, 4), max_len=3, min_groups=mg, max_groups=xg, max_per_group=3,
                              pool=rng.choice(['counts', 'random', 'decimal', 'dyadic', 'equal']))
+    if rng.random() < 0.4:
+        rulesets.add_odd_alpha(rng, spec)
     if kind == 'normalised':
         tot = sum(p for _, p in spec['base'])
         spec['base'] = [[s, p / tot] for s, p in spec['base']]
